@@ -202,6 +202,10 @@ def plan(prop, tier):
     if prop == "C07":
         fams = [(n, c, r) for n, (c, r) in F.items() if c["fam"] in ("map", "filter", "scan", "take", "skip")
                 and not n.startswith("compo_")]
+        # two subscriptions of one operator instance (per-subscription state: scan's accumulator, skip's counter)
+        tb = dict(maxData=2, maxTop=4, maxPull=0, allowFail=False, burst=False, sinks=["probe", "probe"])
+        fams.append(("stateful_2s", [scen.with_bounds(scen.unary("scan", mode="push", r="lin", seed=5), "scan", **tb),
+                                     scen.with_bounds(scen.unary("skip", mode="push", n=1), "skip", **tb)], None))
         # chains of unary operators (the composition of the list functions)
         P = scen.puppet
         chains = {
